@@ -746,6 +746,10 @@ func renderSort(pkg string, s *SortSpec) map[string]string {
 		for _, nt := range sortNamed {
 			if f.Type == nt[0] && !declared[f.Type] {
 				declared[f.Type] = true
+				if strings.HasPrefix(nt[1], "[]") || strings.HasPrefix(nt[1], "map[") {
+					fmt.Fprintf(&sb, "// %s has a String accessor.\ntype %s %s\n\n// String names the value.\nfunc (c %s) String() string {\n\tif len(c) == 0 {\n\t\treturn \"zero\"\n\t}\n\treturn \"other\"\n}\n\n", nt[0], nt[0], nt[1], nt[0])
+					continue
+				}
 				fmt.Fprintf(&sb, "// %s has a String accessor.\ntype %s %s\n\n// String names the value.\nfunc (c %s) String() string {\n\tvar zero %s\n\tif c == zero {\n\t\treturn \"zero\"\n\t}\n\treturn \"other\"\n}\n\n", nt[0], nt[0], nt[1], nt[0], nt[0])
 			}
 		}
